@@ -191,3 +191,57 @@ func VH24d_bus_header() {
 	a.Close()
 	b.Close()
 }
+
+// VH24e_bad_address: a Listen or Dial with a malformed or unsupported address
+// fails with an error (no panic), binds nothing, and leaves the socket usable:
+// a well-formed Listen on the same socket succeeds afterwards.
+func VH24e_bad_address() {
+	lab := "C12/bad-address"
+	vnet.Install()
+	vws.Reset()
+	bad := []string{"no-scheme-at-all", "foo://unknown-scheme", "tcp://127.0.0.1", "tls+tcp://127.0.0.1", "ws://127.0.0.1/x", "wss://127.0.0.1/x", "tcp://", "ipc://"}
+	addr := bad[verif.Choice("addr", len(bad))]
+	lab += "/" + addr
+	sock := vp.New("pair")
+	var err error
+	how := verif.Choice("how", 4)
+	g := verif.Go("call", func() {
+		switch how {
+		case 0:
+			err = sock.Listen(addr)
+		case 1:
+			sock.SetOption(mangos.OptionDialAsynch, false)
+			err = sock.Dial(addr)
+		case 2:
+			var l mangos.Listener
+			l, err = sock.NewListener(addr, nil)
+			if err == nil {
+				err = l.Listen()
+			}
+		case 3:
+			var d mangos.Dialer
+			d, err = sock.NewDialer(addr, nil)
+			if err == nil {
+				err = d.Dial()
+			}
+		}
+	})
+	verif.Quiesce()
+	verif.Assert(g.Done(), lab+"/call-with-bad-address-blocks")
+	if g.Done() && addr != "ipc://" && addr != "tcp://" {
+		// (an empty host or path is left to the operating system; whatever it says, nothing below may break)
+		verif.Assert(err != nil, lab+"/malformed-address-accepted")
+	}
+	verif.Assert(len(vnet.N.Listeners) == 0 || err == nil, lab+"/listening-although-the-call-failed")
+	// the socket is still usable
+	var e2 error
+	g2 := verif.Go("good", func() {
+		sock.GetOption(mangos.OptionMaxRecvSize)
+		e2 = sock.Listen("inproc://after-bad-address")
+	})
+	verif.Quiesce()
+	verif.Assert(g2.Done() && e2 == nil, lab+"/socket-unusable-after-a-bad-address")
+	verif.Reach("bad-address")
+	sock.Close()
+	verif.Quiesce()
+}
